@@ -31,6 +31,9 @@ def main(run):
                 "predicted value moves with the base); distinct by abstract program")
     recs, inc = explore(run, "RelocAlphabet", "RelocIncFiles", 4 if thorough else 3, 1, BASES, label="AsmCore relocation exhaustive")
     tasks = replay_all(run, recs, inc, {"harness_link": True, "check_syms": False}, nontrivial)
+    recs4, inc4 = explore(run, "RelocCoreAlphabet", "RelocIncFiles", 5 if thorough else 4, 1, BASES,
+                          label=f"AsmCore relocation core, all programs of <= {5 if thorough else 4} statements")
+    tasks += replay_all(run, recs4, inc4, {"harness_link": True, "check_syms": False}, nontrivial)
     recs2, inc2 = explore(run, "RelocAlphabet", "RelocIncFiles", 7, 2, BASES, simulate=(2000 if thorough else 200), depth=15,
                           seed=run.seed + 3, label="AsmCore relocation simulation (<= 7 stmts x 2 files)")
     tasks2 = replay_all(run, recs2, inc2, {"harness_link": True, "check_syms": False}, nontrivial)
